@@ -697,7 +697,7 @@ def fr_log(q):
 E2E_KINDS = ["matern", "matern_ard", "warped", "warped2", "product", "expdecay", "tuple_scale"]
 
 
-def build_model(kind, d, zero_mean):
+def build_model(kind, d, zero_mean, delta_fixed=None):
     """returns (kernel object, mean, kernel argument for the posterior state, likelihood)"""
     scale_arr = None
     if kind == "matern":
@@ -715,7 +715,9 @@ def build_model(kind, d, zero_mean):
         d1 = max(1, d // 2)
         k = ProductKernelFunction(Matern52(d1, ARD=True), Matern52(max(1, d - d1)))
     elif kind == "expdecay":
-        k = ExponentialDecayResourcesKernelFunction(Matern52(max(1, d - 1), ARD=True), ScalarMeanFunction())
+        # delta free (default), or fixed to a value of [0, 1] (the constructor allows every value in between)
+        k = ExponentialDecayResourcesKernelFunction(Matern52(max(1, d - 1), ARD=True), ScalarMeanFunction(),
+                                                    delta_fixed_value=delta_fixed)
     elif kind == "tuple_scale":
         k = Matern52(d, ARD=True, has_covariance_scale=False)
     else:
@@ -764,7 +766,8 @@ def gen_e2e08(rng, tier):
     return {"kind": "e2e08", "seed": rng.randrange(10 ** 9), "model": rng.choice(E2E_KINDS),
             "d": rng.choice([1, 2, 3, 4]), "n": rng.choice([1, 2, 3, 5, 7] + ([10, 14] if big else [])),
             "m": rng.choice([1, 1, 2, 4]), "t": rng.choice([1, 3, 5]), "zero_mean": rng.random() < 0.4,
-            "dups": rng.choice(["none", "none", "dup", "near"]), "small_noise": rng.random() < 0.2}
+            "dups": rng.choice(["none", "none", "dup", "near"]), "small_noise": rng.random() < 0.2,
+            "delta_fixed": rng.choice([None, None, 0.0, 1.0, 0.25, 0.7])}
 
 
 def features_for(rng, kind, d, n, dups):
@@ -808,7 +811,9 @@ def run_e2e08(spec):
     kind, d, n, m, t = spec["model"], spec["d"], spec["n"], spec["m"], spec["t"]
     hist = {"e2e08": 1, "model:" + kind: 1, "dups:" + spec["dups"]: 1}
     mon = []
-    k, mean, lik = build_model(kind, d, spec["zero_mean"])
+    k, mean, lik = build_model(kind, d, spec["zero_mean"], spec.get("delta_fixed"))
+    if kind == "expdecay":
+        hist["expdecay_delta:" + ("free" if spec.get("delta_fixed") is None else str(spec["delta_fixed"]))] = 1
     randomize_params(rng, lik, noise_lo=(1e-8 if spec["small_noise"] else 1e-4))
     scale = None
     if kind == "tuple_scale":
